@@ -62,26 +62,28 @@ def model_run(tag, invs, workers, timeout=3000, **kw):
 
 
 def model_jobs(quick):
-    """(name, kind, kwargs).  kind: contract (must hold) | lead (mechanism model; a violation is a lead)
-    | negative (must be rejected)."""
-    n = 3 if quick else 4
+    """(name, kind, invariants, constants).  kind: contract (must hold) | lead (model of the current builders;
+    a violation is a lead) | negative (must be rejected)."""
+    mech = dict(OuterRule="startsends", TypedM=True)
+    deep = dict(MaxOps=5, KindsM={"PAREN", "ADD", "MUL"})          # (((a) + (b)) * c) needs five nodes
     fk = FUNC_KINDS if quick else FUNC_KINDS_T
-    spell = dict(CmpOpsM={1, exprtok.PCT_OP}, LogSpM={1, 2}) if not quick else {}
     jobs = [
-        ("m_contract", "contract", CONTRACT_INVS, dict(MaxOps=n, **spell)),
+        ("m_contract", "contract", CONTRACT_INVS, dict(MaxOps=3 if quick else 4)),
         ("m_contract_func", "contract", CONTRACT_INVS, dict(MaxOps=3, KindsM=fk, WithFunc=True)),
-        ("m_mech_wrapped", "lead", ["WrappedLead"], dict(MaxOps=n, OuterRule="startsends", TypedM=True)),
-        ("m_mech_stable", "lead", ["StableLead"], dict(MaxOps=n, OuterRule="startsends", TypedM=True)),
-        ("m_mech_regroup", "lead", ["NoRegroupLead"], dict(MaxOps=n, OuterRule="startsends", TypedM=True)),
-        ("m_mech_regroup_func", "lead", ["NoRegroupLead"],
-         dict(MaxOps=3, KindsM=fk, WithFunc=True, OuterRule="startsends", TypedM=True)),
+        ("m_contract_deep", "contract", CONTRACT_INVS, dict(deep)),
+        ("m_mech_wrapped", "lead", ["WrappedLead"], dict(MaxOps=3, **mech)),
+        ("m_mech_stable", "lead", ["StableLead"], dict(MaxOps=3, **mech)),
+        ("m_mech_regroup", "lead", ["NoRegroupLead"], dict(deep, **mech)),
+        ("m_mech_regroup_func", "lead", ["NoRegroupLead"], dict(MaxOps=3, KindsM=FUNC_KINDS, WithFunc=True, **mech)),
         ("m_neg_swapped", "negative", ["NoRegroup"], dict(MaxOps=2, Ladder="swapped")),
     ]
     if not quick:
-        jobs += [("m_neg_andor", "negative", ["NoRegroup"], dict(MaxOps=3, AndOrParens=False)),
-                 ("m_neg_cmp", "negative", ["NoRegroup"], dict(MaxOps=3, CmpParens=False)),
+        jobs += [("m_contract_spellings", "contract", CONTRACT_INVS,
+                  dict(MaxOps=3, CmpOpsM={1, exprtok.PCT_OP}, LogSpM={1, 2, 3})),
                  ("m_contract_func4", "contract", CONTRACT_INVS,
-                  dict(MaxOps=4, KindsM={"PAREN", "NEG", "CMP", "ADD", "MUL"}, WithFunc=True))]
+                  dict(MaxOps=4, KindsM={"PAREN", "NEG", "ADD", "MUL"}, WithFunc=True)),
+                 ("m_neg_andor", "negative", ["NoRegroup"], dict(MaxOps=3, AndOrParens=False)),
+                 ("m_neg_cmp", "negative", ["NoRegroup"], dict(MaxOps=3, CmpParens=False))]
     return jobs
 
 
